@@ -5,7 +5,7 @@ use crate::framework::*;
 use crate::gen::*;
 use copia::async_sync::AsyncCopiaSync;
 use copia::{CopiaSync, Delta, DeltaOp, Signature, StrongHash, Sync as _};
-use copia_simworld::kernel::{ExitKind, RunCfg, World};
+use copia_simworld::kernel::{ExitKind, Fault, OpClass, ProcSel, RunCfg, World};
 use copia_simworld::rng::Rng;
 use copia_simworld::streams::{block_on, IoPlan, SimRead, SimWrite};
 use serde::{Deserialize, Serialize};
@@ -283,6 +283,25 @@ impl C01 {
         }
         let before: Tree = tree_bytes(&w, "local", "/w");
         let mut world = w;
+        let mut crashed_before = false;
+        if sc.mode == 2 && sc.seed % 4 == 0 {
+            // history: an earlier single-file sync of a LONGER source to the same destination was
+            // killed before one of its file-system-mutating calls (whatever it staged stays behind);
+            // the run under test must still make the destination exactly its own source
+            let mut long = source.clone();
+            let extra_len = 3000 + r.usize_below(40_000);
+            long.extend(r.bytes(extra_len));
+            let t = world.clock_ns;
+            world.host("local").put_file("/w/longer", &long, t);
+            let mut kc = cfg.clone();
+            kc.faults.push(Fault::KillAtOp { target: ProcSel::Role("copia".into()), nth: 1 + (sc.seed >> 3) as u32 % 5, class: OpClass::Mutating });
+            let out = run_one(world, kc, "copia", "local", &sv(&["copia", "sync", "/w/longer", "/w/dst", "-b", &bss]), env.clone());
+            rep.execs += 1;
+            rep.fault("earlier_run_killed", out.stats.kills);
+            crashed_before = out.stats.kills > 0;
+            world = out.world;
+            world.host("local").remove_file("/w/longer");
+        }
         for c in &cmds {
             let out = run_one(world, cfg.clone(), "copia", "local", c, env.clone());
             rep.steps += out.stats.steps;
@@ -321,7 +340,7 @@ impl C01 {
                 return;
             }
             let extra: Vec<&String> = after.keys().filter(|k| !["basis", "source", "dst"].contains(&k.as_str())).collect();
-            if !extra.is_empty() {
+            if !extra.is_empty() && !crashed_before {
                 rep.fail("c01.cli", "single-sync-leftover", format!("{extra:?}"));
             }
         }
@@ -372,7 +391,15 @@ impl Check for C01 {
             }
         };
         let max_bytes = if r.below(6) == 0 { 200_000 } else { 40_000 };
-        let data = DataGen::random(&mut r, bs, max_bytes);
+        let mut data = DataGen::random(&mut r, bs, max_bytes);
+        let mut bs = bs;
+        // rarely, at library level: a basis of 1..2.5 MiB (beyond any internal window or buffer a
+        // signature/delta implementation might use) with a block size that divides no power of two
+        if mode == 0 && r.below(150) == 0 {
+            bs = *r.pick(&[700usize, 1000, 3000, 4097, 6000, 333]);
+            let total = (1usize << 20) + r.usize_below(3 << 19);
+            data = DataGen { seed: r.next_u64(), kind: 2, basis_blocks: (total / bs) as u32, basis_tail: r.below(bs as u64) as u32, edits: r.range(1, 3) as u32, src_extra: r.below(2000) as u32 };
+        }
         let hard = if mode == 0 && r.below(8) == 0 {
             Some((r.below(4) as u8, r.below(60_000)))
         } else {
